@@ -43,7 +43,7 @@ var classes = []classSpec{
 	{`\W`, []string{" ", "-", "é", "\n"}},
 }
 
-var literals = []string{"a", "b", "c", "ab", "abc", "x", "é", "日本", "ß", ".", "+", "(", ")", "*", "[", " ", "\n", "\r\n", "\"", "'", "<", "&", ">", "-", "0", "1", "12", "=", "\\", "K", "k", "#", "/*", "*/", "${", "}", "`", "\x1b[", "\x7f", "\v", "\a", "\U000E0001"}
+var literals = []string{"a", "b", "c", "ab", "abc", "x", "é", "日本", "ß", ".", "+", "(", ")", "*", "[", " ", "\n", "\r\n", "\"", "'", "<", "&", ">", "-", "0", "1", "12", "=", "\\", "K", "k", "s", "#", "/*", "*/", "${", "}", "`", "\x1b[", "\x7f", "\v", "\a", "\U000E0001"}
 
 var anchors = []string{`^`, `$`, `\b`, `\B`, `(?m:^)`, `(?m:$)`, `\A`, `\z`}
 
@@ -198,8 +198,12 @@ func (p *Pat) SampleString(t *rapid.T) string {
 		return p.Kids[0].SampleString(t)
 	case "icase":
 		s := p.Kids[0].SampleString(t)
-		if rapid.Bool().Draw(t, "up") {
+		switch rapid.IntRange(0, 3).Draw(t, "fold") {
+		case 0:
 			return strings.ToUpper(s)
+		case 1:
+			// characters whose simple case folding changes the UTF-8 length: k/K/KELVIN SIGN, s/S/LONG S
+			return strings.NewReplacer("k", "\u212a", "K", "\u212a", "s", "\u017f", "S", "\u017f").Replace(s)
 		}
 		return s
 	}
@@ -230,7 +234,25 @@ func GenPat(t *rapid.T, depth int, o PatOpts) *Pat {
 	if depth <= 0 {
 		return genAtom(t, o)
 	}
-	switch rapid.IntRange(0, 11).Draw(t, "pk") {
+	switch rapid.IntRange(0, 12).Draw(t, "pk") {
+	case 12:
+		// corner shapes: an empty alternative, a repetition whose body can match nothing
+		x := GenPat(t, depth-1, o)
+		switch rapid.IntRange(0, 5).Draw(t, "corner") {
+		case 4, 5:
+			// a tail made only of optional parts, nested in a (capturing) group: X(a?b?)
+			a, b := genAtom(t, o), genAtom(t, o)
+			tail := &Pat{Kind: "cat", Kids: []*Pat{{Kind: "rep", Min: 0, Max: 1, Kids: []*Pat{a}}, {Kind: "rep", Min: 0, Max: 1, Kids: []*Pat{b}}}}
+			return &Pat{Kind: "cat", Kids: []*Pat{x, {Kind: "group", Cap: rapid.Bool().Draw(t, "tailcap"), Kids: []*Pat{tail}}}}
+		case 0:
+			return &Pat{Kind: "group", Kids: []*Pat{{Kind: "alt", Kids: []*Pat{{Kind: "lit", Text: ""}, x}}}}
+		case 1:
+			return &Pat{Kind: "group", Kids: []*Pat{{Kind: "alt", Kids: []*Pat{x, {Kind: "lit", Text: ""}}}}}
+		case 2:
+			return &Pat{Kind: "rep", Min: 0, Max: -1, Kids: []*Pat{{Kind: "group", Kids: []*Pat{{Kind: "rep", Min: 0, Max: 1, Kids: []*Pat{wrapRep(x)}}}}}}
+		default:
+			return &Pat{Kind: "rep", Min: 1, Max: -1, Kids: []*Pat{{Kind: "group", Kids: []*Pat{{Kind: "rep", Min: 0, Max: -1, Kids: []*Pat{wrapRep(x)}}}}}}
+		}
 	case 0, 1, 2:
 		n := rapid.IntRange(2, 3).Draw(t, "cn")
 		kids := make([]*Pat, n)
@@ -274,4 +296,11 @@ func GenPat(t *rapid.T, depth int, o PatOpts) *Pat {
 	default:
 		return genAtom(t, o)
 	}
+}
+
+func wrapRep(p *Pat) *Pat {
+	if p.Kind == "rep" || p.Kind == "anchor" {
+		return &Pat{Kind: "group", Kids: []*Pat{p}}
+	}
+	return p
 }
